@@ -59,15 +59,23 @@ def arg_repr(rng: random.Random, gen: str, r: int, c: int, kw: dict) -> dict:
             choices = [x for x in choices if x in ("int8", "uint8")] * 3 + choices
         if gen != "gen_wilson":  # gen_wilson uses the shape as it is given (array arithmetic): arrays only
             choices += ["list", "tuple"]
+        # one array owned by the caller and rewritten in place for every grid it asks for (the runs of a batch share a process)
+        choices += ["shared-int64"] * max(2, len(choices) // 3)
         out["shape_repr"] = rng.choice(choices)
     if "start_coord" in kw and rng.random() < (0.8 if max(r, c) > 128 else 0.3):
         out["start_repr"] = rng.choice(["int64-buffer", "int8-buffer", "int8-buffer", "tuple"])
     return out
 
 
+_SHARED_SHAPE = np.zeros(2, dtype=np.int64)
+
+
 def _shape_arg(spec):
     r, c = spec["shape"]
     rep = spec.get("shape_repr")
+    if rep == "shared-int64":
+        _SHARED_SHAPE[:] = (r, c)
+        return _SHARED_SHAPE
     if rep in (None, "int64"):
         return np.array([r, c])
     if rep == "list":
